@@ -26,6 +26,7 @@ mod c14;
 mod c15;
 mod c16;
 mod c17;
+mod c18;
 mod c19;
 mod c20;
 mod tv;
@@ -51,6 +52,7 @@ fn main() {
         .or_else(|| c15::dispatch(&cmd, &args))
         .or_else(|| c16::dispatch(&cmd, &args))
         .or_else(|| c17::dispatch(&cmd, &args))
+        .or_else(|| c18::dispatch(&cmd, &args))
         .or_else(|| c19::dispatch(&cmd, &args))
         .or_else(|| c20::dispatch(&cmd, &args))
         .or_else(|| tv::dispatch(&cmd, &args))
